@@ -1,7 +1,8 @@
 (* C05: role conflicts resolve by tie-breaker into opposite roles (RFC 8445 7.3.1.1).
    Statements only; proofs in Proofs/AgentC05.v.  Every theorem holds for EVERY agent state. *)
 From Coq Require Import ZArith Bool List.
-From Ice Require Import Model.AgentTypes Model.AgentCore Gen.Consts Proofs.AgentFrame Proofs.AgentC02 Proofs.AgentC05.
+From Ice Require Import Model.AgentTypes Model.AgentCore Model.PairMonitor Model.TwoAgents Gen.Consts Proofs.AgentFrame Proofs.AgentC02 Proofs.AgentC05
+  Proofs.TwoAgentsRoles.
 Import ListNotations.
 Local Open Scope Z_scope.
 
@@ -68,3 +69,68 @@ Example C05_example_boundaries :
   keeps_role (cfg 5) (s true) 6 = false /\ keeps_role (cfg 5) (s false) 6 = true /\
   keeps_role (cfg 18446744073709551615) (s true) 0 = true /\ keeps_role (cfg 0) (s false) 18446744073709551615 = true.
 Proof. vm_compute. repeat split. Qed.
+
+(* ---- "two agents started in the same role with distinct tie-breakers end in opposite roles under every
+   message ordering": the two-agent system of Model/TwoAgents.v (each side the full agent core; the network
+   delivers, drops, duplicates and reorders at will).  For every topology, every pair of configurations with
+   distinct tie-breakers, every state in which both agents have been started in role r and nothing is in
+   flight, and every schedule [ops] of API calls, ticks, deliveries, losses and duplications from there:
+   - the agent the rule lets keep its role (A iff [keeps r tbA tbB]) still has role r;
+   - if the other agent has role (not r), both roles stay as they are under every continuation [more];
+   - if it still has role r, delivering ANY in-flight check of the keeper that it accepts (open agent, known
+     local candidate, authentic, carrying a role attribute, source known or learnable) switches it.
+   So the roles can only be equal while no check of the keeper has got through, and never again afterwards.
+   What is not a theorem here: that such a check is eventually delivered (a liveness property of the network
+   and of the timers; the pair suite exercises it, monitor C05.opposite_roles at quiescence). *)
+Theorem C05_same_role_conflict_resolves : forall cfga cfgb t r sy0,
+  cf_tiebreaker cfga <> cf_tiebreaker cfgb -> started_in_same_role r sy0 ->
+  let ka := keeps r (cf_tiebreaker cfga) (cf_tiebreaker cfgb) in
+  forall ops, let sy := sys_run cfga cfgb t sy0 ops in
+  s_ctl (agent_of ka sy) = r /\
+  (s_ctl (agent_of (negb ka) sy) = negb r ->
+   forall more, s_ctl (agent_of (negb ka) (sys_run cfga cfgb t sy more)) = negb r /\
+                s_ctl (agent_of ka (sys_run cfga cfgb t sy more)) = r) /\
+  (s_ctl (agent_of (negb ka) sy) = r ->
+   forall n f, nth_error (sy_net sy) n = Some f -> f_to_a f = negb ka ->
+     accepted_check (cfg_of cfga cfgb (negb ka)) (agent_of (negb ka) sy) f ->
+     s_ctl (agent_of (negb ka) (sys_step cfga cfgb t sy (SDeliver n))) = negb r).
+Proof. exact same_role_conflict_resolves. Qed.
+Print Assumptions C05_same_role_conflict_resolves.
+
+(* the invariant behind it, for one step of the system from ANY state satisfying it (not only reachable ones) *)
+Theorem C05_role_invariant_step : forall cfga cfgb t r ka sy o,
+  keeps r (tbK cfga cfgb ka) (tbO cfga cfgb ka) = true ->
+  RoleInv cfga cfgb r ka sy -> RoleInv cfga cfgb r ka (sys_step cfga cfgb t sy o).
+Proof. exact sys_step_preserves_RoleInv. Qed.
+Print Assumptions C05_role_invariant_step.
+
+(* non-vacuity: both sides started controlling (resp. controlled); before any delivery the roles are equal,
+   the first check that gets through makes them opposite, and the loser is the one the rule names *)
+Module C05_example_two_agents.
+  Definition cfg t := mkConfig false t 7 5000000000 false 25000000000 0 0 0 0 0 [] false false 1.
+  Definition aA := mkAddr false 167772161 5000.
+  Definition aB := mkAddr false 3232235777 6000.
+  Definition la := mkCand 1 1 1 aA 0 2130706431 1 None.
+  Definition lb := mkCand 1 1 1 aB 0 2130706431 1 None.
+  Definition topo := mkTopology [mkEndpoint 1 aA] [mkEndpoint 1 aB] [[(true, true)]].
+  Definition setup r :=
+    [SApi true (AddLocal la); SApi false (AddLocal lb); SApi true (AddRemote (set_c_h 2 lb)); SApi false (AddRemote (set_c_h 2 la));
+     SApi true (Start r 3 4); SApi false (Start r 1 2)].
+  Definition sy0 r := sys_run (cfg 5) (cfg 6) topo (sys_init 1 2 3 4) (setup r).
+  Definition roles sy := (s_ctl (sy_a sy), s_ctl (sy_b sy)).
+  Example hypothesis_holds : started_in_same_role true (sy0 true) /\ started_in_same_role false (sy0 false).
+  Proof. vm_compute. repeat split. Qed.
+  (* both controlling: B (tie-breaker 6) keeps; A's check reaches B first and is answered 487; B's check switches A *)
+  Example both_controlling :
+    keeps true 5 6 = false /\
+    roles (sys_run (cfg 5) (cfg 6) topo (sy0 true) [SApi true Tick; SApi false Tick]) = (true, true) /\
+    roles (sys_run (cfg 5) (cfg 6) topo (sy0 true) [SApi true Tick; SApi false Tick; SDeliver 0]) = (true, true) /\
+    roles (sys_run (cfg 5) (cfg 6) topo (sy0 true) [SApi true Tick; SApi false Tick; SDeliver 0; SDeliver 0]) = (false, true).
+  Proof. vm_compute. repeat split. Qed.
+  (* both controlled: A (the smaller tie-breaker) keeps *)
+  Example both_controlled :
+    keeps false 5 6 = true /\
+    roles (sys_run (cfg 5) (cfg 6) topo (sy0 false) [SApi true Tick; SApi false Tick; SDeliver 1]) = (false, false) /\
+    roles (sys_run (cfg 5) (cfg 6) topo (sy0 false) [SApi true Tick; SApi false Tick; SDeliver 1; SDeliver 0]) = (false, true).
+  Proof. vm_compute. repeat split. Qed.
+End C05_example_two_agents.
